@@ -6,6 +6,7 @@ import os
 
 ON = os.environ.get('GAMBATOOLS_VERIF') == '1'
 TRACE = []
+DETAIL = False   # hooks inside hot loops (pda_epsilon_closure) report only while a harness sets this
 
 
 def emit(event, **fields):
